@@ -155,7 +155,7 @@ pub fn moments(cfg: &mut Cfg, rep: &mut Report) {
     let shapes: Vec<Vec<usize>> = if cfg.thorough { vec![vec![4], vec![6], vec![8], vec![2, 2], vec![2, 3], vec![3, 1, 2], vec![2, 2, 2]] } else { vec![vec![4], vec![7], vec![2, 3], vec![2, 1, 2]] };
     for shape in &shapes {
         let size: usize = shape.iter().product();
-        for _ in 0..(if cfg.thorough { 60 } else { 20 }) {
+        for _ in 0..(if cfg.thorough { 1500 } else { 20 }) {
             let data = code_vec(&da, size, rng.next() as usize);
             let w = code_vec(&wa, size, rng.next() as usize);
             let lays: &[(&'static str, &'static str)] = if shape.len() > 1 { &[("c", "c"), ("f", "rev"), ("stepped", "f")] } else { &[("c", "c"), ("rev", "stepped")] };
@@ -177,7 +177,7 @@ pub fn moments(cfg: &mut Cfg, rep: &mut Report) {
     // per-axis forms: lane by lane, bit for bit (zero weights included)
     for shape in [vec![2usize, 3], vec![3, 2], vec![2, 2, 2]] {
         let size: usize = shape.iter().product();
-        for _ in 0..(if cfg.thorough { 20 } else { 6 }) {
+        for _ in 0..(if cfg.thorough { 300 } else { 6 }) {
             let data = code_vec(&da, size, rng.next() as usize);
             let d = ArrayD::from_shape_vec(IxDyn(&shape), data.clone()).unwrap();
             for ax in 0..shape.len() {
@@ -227,7 +227,7 @@ pub fn moments(cfg: &mut Cfg, rep: &mut Report) {
     let cshapes: Vec<Vec<usize>> = if cfg.thorough { vec![vec![5], vec![8], vec![16], vec![2, 3], vec![2, 2, 2], vec![3, 1, 2]] } else { vec![vec![6], vec![2, 3], vec![2, 2, 2]] };
     for shape in &cshapes {
         let size: usize = shape.iter().product();
-        for _ in 0..(if cfg.thorough { 40 } else { 12 }) {
+        for _ in 0..(if cfg.thorough { 800 } else { 12 }) {
             let data = code_vec(&[-3.0, -0.5, 0.0, 1.0, 2.25, 7.75, 100.125], size, rng.next() as usize);
             check_cmoments(cfg, rep, "sampled", shape, &data, &LAYOUTS, 8);
             if rep.stop { return; }
